@@ -393,3 +393,91 @@ pub fn gen_filter(rng: &mut Rng, p: &Pools, eng: &Eng, plan: usize) -> SemFilter
     }
     f
 }
+
+
+/// Filters built from what is actually retrievable, so that several values / authors / kinds each
+/// contribute matches, with a limit that cuts in the middle of the qualifying set.
+pub fn gen_filter_from_state(rng: &mut Rng, eng: &Eng, plan: usize) -> SemFilter {
+    use std::collections::{BTreeMap, BTreeSet};
+    let mut authors: BTreeSet<Id32> = BTreeSet::new();
+    let mut kinds: BTreeSet<u16> = BTreeSet::new();
+    let mut tagvals: BTreeMap<String, BTreeSet<String>> = BTreeMap::new();
+    for e in eng.model.r.values() {
+        let _ = authors.insert(e.sem.pubkey);
+        let _ = kinds.insert(e.sem.kind);
+        for t in e.sem.tags.iter() {
+            if t.len() >= 2 && t[0].len() == 1 && t[0].as_bytes()[0].is_ascii_alphabetic() {
+                let _ = tagvals.entry(t[0].clone()).or_default().insert(t[1].clone());
+            }
+        }
+    }
+    let authors: Vec<Id32> = authors.into_iter().collect();
+    let kinds: Vec<u16> = kinds.into_iter().collect();
+    let mut f = SemFilter::empty();
+    let pick_some = |rng: &mut Rng, n: usize| -> usize { 1 + rng.usize_below(n.min(3)) };
+    let some_authors = |rng: &mut Rng| -> Vec<Id32> {
+        if authors.is_empty() {
+            return vec![];
+        }
+        let mut v = authors.clone();
+        rng.shuffle(&mut v);
+        let k = pick_some(rng, v.len());
+        v.truncate(k);
+        v
+    };
+    let some_kinds = |rng: &mut Rng| -> Vec<u16> {
+        if kinds.is_empty() {
+            return vec![];
+        }
+        let mut v = kinds.clone();
+        rng.shuffle(&mut v);
+        let k = pick_some(rng, v.len());
+        v.truncate(k);
+        v
+    };
+    let some_tags = |rng: &mut Rng| -> Vec<(String, Vec<String>)> {
+        if tagvals.is_empty() {
+            return vec![];
+        }
+        let letters: Vec<&String> = tagvals.keys().collect();
+        let l = (*rng.pick(&letters)).clone();
+        let mut vals: Vec<String> = tagvals[&l].iter().cloned().collect();
+        rng.shuffle(&mut vals);
+        let k = (2 + rng.usize_below(3)).min(vals.len());
+        vals.truncate(k);
+        vec![(l, vals)]
+    };
+    match plan % 7 {
+        0 => {
+            let mut ids: Vec<Id32> = eng.model.r.keys().cloned().collect();
+            rng.shuffle(&mut ids);
+            let k = (2 + rng.usize_below(8)).min(ids.len());
+            ids.truncate(k);
+            f.ids = ids;
+        }
+        1 => {
+            f.authors = some_authors(rng);
+            f.kinds = some_kinds(rng);
+        }
+        2 => {
+            f.authors = some_authors(rng);
+            f.tags = some_tags(rng);
+        }
+        3 => {
+            f.kinds = some_kinds(rng);
+            f.tags = some_tags(rng);
+        }
+        4 => f.tags = some_tags(rng),
+        5 => f.authors = some_authors(rng),
+        _ => {
+            if rng.chance(1, 2) {
+                f.kinds = some_kinds(rng);
+            }
+        }
+    }
+    let q = eng.model.qualifying(&f, &|_| 0).len();
+    if q >= 2 && rng.chance(4, 5) {
+        f.limit = Some(1 + rng.below(q as u64 - 1) as u32);
+    }
+    f
+}
